@@ -102,6 +102,10 @@ def _on_line(code, line):
             return None
     if threading.get_ident() != st.armed_thread or threading.current_thread() is not st.armed_obj:
         return None
+    if _is_try_line(fn, line):
+        # the NOP CPython emits for a "try:" line lies outside every exception-table range (even the one of an enclosing
+        # try) and is no eval-breaker site: a real asynchronous exception can never be raised there, so it is no landing point
+        return None
     st.count += 1
     k = st.count
     site = (os.path.basename(fn), line, code.co_name)
@@ -125,6 +129,19 @@ def _on_line(code, line):
     if ev is not None:
         _deliver(st, k, ev, site)
     return None
+
+
+_try_lines = {}
+
+
+def _is_try_line(fn, line):
+    key = (fn, line)
+    r = _try_lines.get(key)
+    if r is None:
+        import linecache
+        r = linecache.getline(fn, line).strip() in ('try:', 'else:', 'finally:')
+        _try_lines[key] = r
+    return r
 
 
 def _open_log(st):
